@@ -53,13 +53,15 @@ data = find_paths('data/*', type='f', exclude=['*.tmp'])
 nocache = find_paths('nocache/*.c', cache=False)
 assets = directory('assets', include='*.png')
 inc = header_directory('include', include='**/*.h')
+vend = header_directory('vendor', include='*.h', dist=False)
 def no_wip(path):
     return (FindResult.exclude if 'wip' in path.basename()
             else FindResult.include)
 tools = find_files('tools/*.c'{custom})
 gen = find_files('generated/*.c')
 prog = executable('prog', ['main.c'] + srcs + plat + tools + gen,
-                  includes=[inc])
+                  includes=[inc, vend])
+install(vend)
 build_step('manifest.txt', cmd=['rec', 'MANIFEST', '--vf-out=manifest.txt'] +
            [i for i in data], files=data)
 submodule('sub')
@@ -93,7 +95,7 @@ TC_STATES = [
 ]
 
 DIRS = ['src', 'src/core', 'src/util', 'plat', 'data', 'assets', 'include',
-        'include/detail', 'sub', 'other', 'tools']
+        'include/detail', 'sub', 'other', 'tools', 'vendor']
 NAMES = {
     'src': ['a.c', 'b.c', 'notes.md', 'c.h', 'x.cpp'],
     'src/core': ['k.c', 'l.c', 'README.md'],
@@ -106,6 +108,7 @@ NAMES = {
     'sub': ['s1.c', 's2.c', 'doc.txt'],
     'other': ['unrelated.c', 'junk'],
     'tools': ['t1.c', 't_wip.c', 't2.c', 'zz.txt'],
+    'vendor': ['v1.h', 'v2.h', 'v.txt'],
 }
 # ('generated' is the base of a find_files pattern and absent at first)
 NEWDIRS = ['src/new', 'src/core/deep', 'include/extra', 'elsewhere',
@@ -410,7 +413,10 @@ class RegenMachine(RuleBasedStateMachine):
         keep = self.bld + '.keep'
         os.rename(self.bld, keep)
         try:
-            f = sandbox.configure(self.src, self.bld, self.env,
+            # (another hash seed than the regenerations: what is written may
+            # not depend on it)
+            f = sandbox.configure(self.src, self.bld,
+                                  dict(self.env, PYTHONHASHSEED='4711'),
                                   backend=self.backend,
                                   extra=self._configure_args())
             if f.rc != 0:
@@ -598,6 +604,7 @@ def _run_core(rec, seed, budget, shard, nshards):
                      'use_custom': False, 'history': hist})
         # a file appears where one of the find_files()/directory() calls looks
         for rel in ('src/zz_new.c', 'tools/t2.c', 'include/zz_new.h',
+                    'vendor/zz_new.h',
                     'assets/n.png', 'data/n.dat', 'sub/zz_new.c'):
             for pkg, custom in ((False, False), (True, False), (False, True)):
                 jobs.append({'backend': backend, 'use_extra': False,
